@@ -1,2 +1,25 @@
--- line-protocol model driver for C09 (stub)
-def main : IO Unit := IO.println "stub C09"
+/- Line-protocol model driver for C09 (marshal codec).
+    pushint <int>      -> hex bytes
+    readint <hex>      -> "ok <int> <consumed>" | "err"
+-/
+import Driver.Util
+import JanetModel.Marsh.IntCodec
+open Driver JanetModel.Marsh
+
+def step (_ : Unit) (toks : List String) : Unit × String :=
+  match toks with
+  | ["pushint", n] =>
+    match n.toInt? with
+    | some x => if -2147483648 ≤ x ∧ x < 2147483648 then ((), hexOfBytes (pushint x)) else ((), "bad-op")
+    | none => ((), "bad-op")
+  | ["readint", h] =>
+    match bytesOfHex h with
+    | some bs =>
+      match readint bs with
+      | some (x, tl) => ((), s!"ok {x} {bs.length - tl.length}")
+      | none => ((), "err")
+    | none => ((), "bad-op")
+  | ["readint"] => ((), match readint [] with | some _ => "ok" | none => "err")
+  | _ => ((), "bad-op")
+
+def main : IO Unit := runLoop () step
